@@ -447,6 +447,9 @@ pub(crate) struct KEnv {
     pub rb_slice2: Option<KHandle<RefBlock>>,
     pub rb_key2: usize,
     pub fail_get_rb: Cell<bool>,
+    /// flush_table alone fails / flush_refcount fails (fail_write makes every write fail)
+    pub fail_table: Cell<bool>,
+    pub fail_rc: Cell<bool>,
     /// host offset the allocator shim hands out
     pub alloc_off: u64,
     pub alloc_cnt: usize,
@@ -490,6 +493,8 @@ impl KEnv {
             rb_slice2: None,
             rb_key2: 0,
             fail_get_rb: Cell::new(false),
+            fail_table: Cell::new(false),
+            fail_rc: Cell::new(false),
             alloc_off: 0,
             alloc_cnt: 0,
             cache_dirty: Cell::new(false),
@@ -798,6 +803,9 @@ impl KEnv {
     }
     pub fn k_flush_refcount(&self) -> KResult<()> {
         self.rec(Rec { kind: K_FLUSH_REFCOUNT, flags: self.need_flush_meta() as u32, ..NOREC });
+        if self.fail_rc.get() {
+            return Err(KErr);
+        }
         Ok(())
     }
     /// flush_meta_generic as seen by flush_meta: "done" after `passes_left` more passes
@@ -904,7 +912,7 @@ impl KEnv {
     pub fn k_flush_table<B: Table>(&self, t: &B, start: u32, size: usize) -> KResult<()> {
         self.rec(Rec { kind: K_BACKEND_WRITE, off: t.get_offset().unwrap() + start as u64, len: size,
                        buf_start: start as usize, ..NOREC });
-        if self.fail_write.get() {
+        if self.fail_write.get() || self.fail_table.get() {
             return Err(KErr);
         }
         Ok(())
